@@ -193,6 +193,41 @@ Definition hlle_col_expected : hexpr := HAdd (HAdd (HAdd (HV HCt) (HV HP)) (HC 1
 (* the code before commit cd6c3b2 (F6): ct += ct + target_dimension - j *)
 Definition hlle_step_old : hexpr := HSub (HAdd (HV HCt) (HV HD)) (HV HJ).
 
+(* linear normal form of an index expression: coefficients of (ct, d, j, p, 1); None when the expression
+   multiplies two non-constant parts.  Two expressions with the same normal form are equal as functions, so
+   an algebraically equivalent rewrite of the C++ expression keeps the proof obligation. *)
+Definition lin := (Z * Z * Z * Z * Z)%type.
+Definition lin_eval (l : lin) (ct d j p : Z) : Z :=
+  match l with (a, b, c, e, k) => a * ct + b * d + c * j + e * p + k end.
+Definition lin_const (l : lin) : option Z :=
+  match l with (a, b, c, e, k) => if (a =? 0) && (b =? 0) && (c =? 0) && (e =? 0) then Some k else None end.
+Fixpoint hlin (e : hexpr) : option lin :=
+  match e with
+  | HV HCt => Some (1, 0, 0, 0, 0) | HV HD => Some (0, 1, 0, 0, 0)
+  | HV HJ => Some (0, 0, 1, 0, 0) | HV HP => Some (0, 0, 0, 1, 0)
+  | HC z => Some (0, 0, 0, 0, z)
+  | HAdd a b =>
+      match hlin a, hlin b with
+      | Some (a1, a2, a3, a4, a5), Some (b1, b2, b3, b4, b5) => Some (a1 + b1, a2 + b2, a3 + b3, a4 + b4, a5 + b5)
+      | _, _ => None
+      end
+  | HSub a b =>
+      match hlin a, hlin b with
+      | Some (a1, a2, a3, a4, a5), Some (b1, b2, b3, b4, b5) => Some (a1 - b1, a2 - b2, a3 - b3, a4 - b4, a5 - b5)
+      | _, _ => None
+      end
+  | HMul a b =>
+      match hlin a, hlin b with
+      | Some (a1, a2, a3, a4, a5), Some (b1, b2, b3, b4, b5) =>
+          if (a1 =? 0) && (a2 =? 0) && (a3 =? 0) && (a4 =? 0)
+          then Some (a5 * b1, a5 * b2, a5 * b3, a5 * b4, a5 * b5)
+          else if (b1 =? 0) && (b2 =? 0) && (b3 =? 0) && (b4 =? 0)
+          then Some (b5 * a1, b5 * a2, b5 * a3, b5 * a4, b5 * a5)
+          else None
+      | _, _ => None
+      end
+  end.
+
 (* ------------------------------------------------------------------ triplets *)
 (* the entry (r, c) of the sparse matrix assembled by setFromTriplets: the sum of the values of the
    triplets with that position (exact arithmetic) *)
